@@ -63,7 +63,33 @@ def draw_value(tape, fmt):
     return tuple(draw_scalar(tape, f) for _ in range(n))
 
 
-def run(tape, scenario, want_c10=False):
+def layout_elsewhere(values, scenario, hashseed):
+    """the positions the same declarations get in another interpreter with another string
+    hash seed (a second session that opens the first one's pinned maps lays its
+    variables out on its own): {holder.name: position} or an error string"""
+    import json, os, subprocess, sys
+    verif = os.path.dirname(os.path.dirname(os.path.abspath(__file__)))
+    code = ("import sys, json, os\n"
+            f"sys.path.insert(0, {verif!r}); sys.path.insert(0, os.environ.get('VERIF_REPO', '/repo'))\n"
+            "from sim.tape import Tape\n"
+            "from checks import c08\n"
+            "d = json.load(sys.stdin)\n"
+            "print('LAYOUT', json.dumps(c08.run(Tape(replay=d['values']), d['scenario'], "
+            "layout_only=True)))\n")
+    env = dict(os.environ, PYTHONHASHSEED=str(hashseed), PYTHONDONTWRITEBYTECODE="1")
+    try:
+        r = subprocess.run([sys.executable, "-c", code], env=env, capture_output=True, text=True,
+                           input=json.dumps({"values": values, "scenario": scenario}),
+                           timeout=120)
+    except Exception as e:
+        return f"{type(e).__name__}: {e}"
+    for line in r.stdout.splitlines():
+        if line.startswith("LAYOUT "):
+            return json.loads(line[7:])
+    return (r.stderr or r.stdout)[-300:]
+
+
+def run(tape, scenario, want_c10=False, layout_only=False):
     import hashlib
     from ebpfcat.arraymap import ArrayMap, PerCPUArrayMap
     from ebpfcat.ebpf import SubProgram
@@ -223,6 +249,25 @@ def run(tape, scenario, want_c10=False):
             viol("program-cannot-be-generated", f"{type(e).__name__}: {e}; decls={decls}",
                  exception=type(e).__name__)
             p = None
+        elsewhere = p is not None and not want_c10 \
+            and tape.chance("c08/layout-in-another-interpreter", 2)
+        if p is not None and (layout_only or elsewhere):
+            def holder_of(h):
+                return p if h == "prog" else p.subprograms[int(h[3:])]
+            mine = {f"{h}.{n}": holder_of(h).__dict__.get(n) for h, n, f, k in decls}
+            if layout_only:
+                return mine
+            theirs = layout_elsewhere(list(tape.values), scenario,
+                                      1 + tape.draw("c08/other-hash-seed", 100000))
+            world.count("c08/layout-compared-with-another-interpreter")
+            if not isinstance(theirs, dict):
+                raise RuntimeError(f"layout child failed: {theirs}")
+            if theirs != mine:
+                diff = sorted(k for k in mine if theirs.get(k) != mine[k])
+                viol("layout-differs-between-interpreters",
+                     f"variables {diff[:6]} sit at {[mine[k] for k in diff[:6]]} here and at "
+                     f"{[theirs.get(k) for k in diff[:6]]} in an interpreter with another "
+                     f"string hash seed: two sessions sharing a pinned map disagree")
         if p is not None and subclasses and tape.chance("c08/second-instance", 30):
             # another instance of the same program class, with another list of
             # sub-programs (so its maps have other sizes), is generated and loaded
